@@ -49,6 +49,7 @@ def witness_search(tier, seed):
             stt = SSCSimfile(string="#VERSION:0.83;#CREDIT:me;#NOTEDATA:;#STEPSTYPE:x;#NOTES:0;") if st else None
             ctt = SSCChart.from_str("#NOTEDATA:;#CHARTNAME:n;#NOTES:00;") if ct else None
             neg = "=-" in text
+            tmpl_before = ((list(stt.items()), [list(c.items()) for c in stt.charts]) if stt else None, list(ctt.items()) if ctt else None)
             try:
                 out = sm_to_ssc(sm, simfile_template=stt, chart_template=ctt)
             except NotImplementedError:
@@ -70,6 +71,17 @@ def witness_search(tier, seed):
             n0 = len(stt.charts) if stt else 0
             if len(out.charts) != n0 + len(sm.charts):
                 return dict(input=text, detail="chart count differs")
+            # the result shares no mutable object with the source or the templates, which are left as they were
+            others = [("the source", sm, list(sm.charts))] + ([("the simfile template", stt, list(stt.charts))] if stt else [])
+            for who, sf, chs in others:
+                if out is sf or out.charts is sf.charts or any(a is b for a in out.charts for b in chs):
+                    return dict(input=dict(source=text, simfile_template=bool(st), chart_template=bool(ct)), detail=f"the result shares its chart list or a chart with {who}")
+            if ctt is not None and any(a is ctt for a in out.charts):
+                return dict(input=dict(source=text, chart_template=True), detail="the chart template itself is a chart of the result")
+            if stt is not None and (list(stt.items()), [list(c.items()) for c in stt.charts]) != tmpl_before[0]:
+                return dict(input=dict(source=text, simfile_template=True), detail="the supplied simfile template was modified")
+            if ctt is not None and list(ctt.items()) != tmpl_before[1]:
+                return dict(input=dict(source=text, chart_template=True), detail="the supplied chart template was modified")
             for a, b in zip(sm.charts, out.charts[n0:]):
                 for k, v in a.items():
                     if b.get(k) != v:
